@@ -128,24 +128,96 @@ def Bound.val : Bound → Nat
   | .excl x => x
   | .unb => 0
 
+theorem Bound.startE_eq (sb : Bound) (h : sb.val < W) :
+    sb.startE = if sb.startNat < W then .ok sb.startNat else .error (.doc "range_start_overflow") := by
+  cases sb with
+  | incl x => simp only [Bound.val] at h; simp [Bound.startE, Bound.startNat, h]
+  | excl x =>
+    simp only [Bound.startE, Bound.startNat, checkedAdd]
+    by_cases hx : x + 1 < W <;> simp [hx]
+  | unb => simp [Bound.startE, Bound.startNat, W_pos]
+
+theorem Bound.endE_eq (eb : Bound) (len : Nat) (h : eb.val < W) (hl : len < W) :
+    eb.endE len = if eb.endNat len < W then .ok (eb.endNat len)
+      else .error (.doc "range_end_overflow") := by
+  cases eb with
+  | incl x =>
+    simp only [Bound.endE, Bound.endNat, checkedAdd]
+    by_cases hx : x + 1 < W <;> simp [hx]
+  | excl x => simp only [Bound.val] at h; simp [Bound.endE, Bound.endNat, h]
+  | unb => simp [Bound.endE, Bound.endNat, hl]
+
 /-- `translate_range_bounds` succeeds exactly on valid ranges and returns them … -/
-theorem translateRange_ok (sb eb : Bound) (s : Sys)
+theorem translateRange_ok (sb eb : Bound) (s : Sys) (hsb : sb.val < W) (heb : eb.val < W)
     (he : eb.endNat s.buf.size ≤ s.buf.size) (hs : sb.startNat ≤ eb.endNat s.buf.size)
     (hW : s.buf.size < W) :
     translateRange sb eb s = (.ok (sb.startNat, eb.endNat s.buf.size), s) := by
-  cases sb <;> cases eb <;>
-    simp only [Bound.startNat, Bound.endNat] at he hs ⊢ <;>
-    simp only [translateRange, checkedAdd] <;>
-    mrun []
+  have h1 : sb.startNat < W := by omega
+  have h2 : eb.endNat s.buf.size < W := by omega
+  mrun [translateRange, Bound.startE_eq sb hsb, Bound.endE_eq eb _ heb hW, h1, h2]
 
-/-- … and panics (leaving the state untouched) on every other range -/
+/-- … and panics with one of the documented messages (leaving the state untouched) on every other
+range: the end exceeds the length, or the start exceeds the end (bounds read as unbounded naturals,
+so `Excluded(usize::MAX)` as a start and `Included(usize::MAX)` as an end are covered). -/
 theorem translateRange_panics (sb eb : Bound) (s : Sys) (hsb : sb.val < W) (heb : eb.val < W)
+    (hW : s.buf.size < W)
     (hbad : s.buf.size < eb.endNat s.buf.size ∨ eb.endNat s.buf.size < sb.startNat) :
     ∃ k, translateRange sb eb s = (.error (.doc k), s) := by
-  cases sb <;> cases eb <;>
-    simp only [Bound.startNat, Bound.endNat, Bound.val] at hbad hsb heb <;>
-    simp only [translateRange, checkedAdd] <;>
-    (try (exfalso; omega))
-  all_goals trace_state; sorry
+  by_cases h1 : sb.startNat < W
+  · by_cases h2 : eb.endNat s.buf.size < W
+    · by_cases h3 : eb.endNat s.buf.size ≤ s.buf.size
+      · have h4 : ¬ sb.startNat ≤ eb.endNat s.buf.size := by omega
+        exact ⟨"range_order", by
+          mrun [translateRange, Bound.startE_eq sb hsb, Bound.endE_eq eb _ heb hW, h1, h2, h3, h4]⟩
+      · exact ⟨"range_end", by
+          mrun [translateRange, Bound.startE_eq sb hsb, Bound.endE_eq eb _ heb hW, h1, h2, h3]⟩
+    · exact ⟨"range_end_overflow", by
+        mrun [translateRange, Bound.startE_eq sb hsb, Bound.endE_eq eb _ heb hW, h1, h2]⟩
+  · exact ⟨"range_start_overflow", by
+      mrun [translateRange, Bound.startE_eq sb hsb, h1]⟩
+
+theorem Iter.new_spec (s : Sys) (h : Inv s.buf) :
+    ∃ it, Iter.new s = (.ok it, s) ∧
+      it.remaining = windowSlots s.buf.start s.buf.cap s.buf.size := by
+  obtain ⟨f, k, h1, h2, _⟩ := asSlicesOf_spec s.buf h
+  refine ⟨⟨f, k⟩, ?_, h2⟩
+  simp only [Iter.new, asSlices, bind_run, getBuf_run, h1, liftE_ok, pure_run]
+
+/-- the slots of logical positions `a .. b` -/
+def rangeSlots (start cap a b : Nat) : List Nat := (List.range' a (b - a)).map (phys start cap)
+
+theorem windowSlots_slice (start cap size a b : Nat) (hab : a ≤ b) (hb : b ≤ size) :
+    ((windowSlots start cap size).drop a).take (b - a) = rangeSlots start cap a b := by
+  unfold windowSlots rangeSlots
+  rw [List.range_eq_range', ← List.map_drop, ← List.map_take, range'_drop, range'_take]
+  congr 2 <;> omega
+
+/-- `range(a..b)` / `range_mut(a..b)` in any `RangeBounds` spelling selects exactly the slots of
+the logical positions `a..b`, in order -/
+theorem Iter.overRange_spec (sb eb : Bound) (s : Sys) (h : Inv s.buf) (hsb : sb.val < W)
+    (heb : eb.val < W) (he : eb.endNat s.buf.size ≤ s.buf.size)
+    (hs : sb.startNat ≤ eb.endNat s.buf.size) :
+    ∃ it, Iter.overRange sb eb s = (.ok it, s) ∧
+      it.remaining = rangeSlots s.buf.start s.buf.cap sb.startNat (eb.endNat s.buf.size) := by
+  have hW : s.buf.size < W := by have := h.size_le; have := h.cap_lt; omega
+  have htr := translateRange_ok sb eb s hsb heb he hs hW
+  by_cases hlt : sb.startNat < eb.endNat s.buf.size
+  · obtain ⟨it0, hn, hr0⟩ := Iter.new_spec s h
+    have hl0 : it0.remaining.length = s.buf.size := by rw [hr0, windowSlots_length]
+    obtain ⟨it1, h1, hr1⟩ := Iter.advanceFrontBy_spec it0 sb.startNat s (by omega)
+    have hl1 : it1.remaining.length = s.buf.size - sb.startNat := by rw [hr1]; simp [hl0]
+    obtain ⟨it2, h2, hr2⟩ := Iter.advanceBackBy_spec it1 (s.buf.size - eb.endNat s.buf.size) s
+      (by omega)
+    refine ⟨it2, ?_, ?_⟩
+    · have hnge : ¬ (eb.endNat s.buf.size ≤ sb.startNat) := by omega
+      mrun [Iter.overRange, htr, hn, h1, h2, hnge]
+    · rw [hr2, hl1, hr1, hr0]
+      rw [← windowSlots_slice _ _ s.buf.size _ _ (by omega) he]
+      congr 1; omega
+  · have heq : sb.startNat = eb.endNat s.buf.size := by omega
+    refine ⟨Iter.empty, ?_, ?_⟩
+    · have hge : eb.endNat s.buf.size ≤ sb.startNat := by omega
+      mrun [Iter.overRange, htr, hge]
+    · simp [Iter.empty, Iter.remaining, View.empty, View.slots, rangeSlots, heq]
 
 end CircBuf
